@@ -616,6 +616,10 @@ func runC10(c *Ctx) {
 	guardDone := guardOn(c)
 	defer guardDone()
 	nBranch := 1 + g.Weighted(2, 3, 2, 1)
+	if g.Chance(12) {
+		nBranch = 5 + g.Draw(5) // now and then a wide tee
+		c.R.Probe("tee of 5-9 branches")
+	}
 	var branches []*c10branch
 	var cores []zapcore.Core
 	errKind := f.Weighted(8, 2, 2, 1, 1)
